@@ -1,8 +1,363 @@
 import Karp.Driver.Proto
+import Karp.Model.PoolState
+import Karp.Spec.PoolLedger
+import Karp.Model.Limits
+import Karp.Spec.LimitsSpec
+import Karp.Gen.C03Limits
+import Karp.Model.StaticPool
+import Karp.Spec.StaticSpec
 
 namespace Karp.Driver.C03
 open Lean Karp.Driver
 
-def handle : Handler := fun op _ _ => .error s!"unknown op {op}"
+/-! ## `state.NodePoolState` op sequences -/
+section PoolState
+open Karp.PoolState Karp.Spec.PoolLedger
+
+def natD (j : Json) (k : String) : Except String Nat := do pure ((← natO j k).getD 0)
+def intD (j : Json) (k : String) : Except String Int := do pure ((← intO j k).getD 0)
+
+/-- `{"o": "upd"|"act"|"del"|"pen"|"clean"|"count"|"res"|"rel"|"map"|"reset", "np", "nc", "a", "b"}` -/
+def parseOp (j : Json) : Except String Op := do
+  let o ← strF j "o"
+  let np ← natD j "np"
+  let nc ← natD j "nc"
+  let a ← intD j "a"
+  let b ← intD j "b"
+  match o with
+  | "upd" => pure (.update np nc (a != 0))
+  | "act" => pure (.markActive np nc)
+  | "del" => pure (.markDeleting np nc)
+  | "pen" => pure (.markPending np nc)
+  | "clean" => pure (.cleanup nc)
+  | "count" => pure (.count np)
+  | "res" => pure (.reserve np a b)
+  | "rel" => pure (.release np a)
+  | "map" => pure (.setMapping np nc)
+  | "reset" => pure .reset
+  | _ => .error s!"bad op {o}"
+
+def outToJson : Out → Json
+  | .unit => jObj [("k", jStr "u")]
+  | .counts a d p => jObj [("k", jStr "c"), ("a", jNat a), ("d", jNat d), ("p", jNat p)]
+  | .grant g => jObj [("k", jStr "g"), ("g", jInt g)]
+  | .panic => jObj [("k", jStr "panic")]
+
+def parseOut (j : Json) : Except String Out := do
+  match (← strF j "k") with
+  | "u" => pure .unit
+  | "c" => pure (.counts (← natF j "a") (← natF j "d") (← natF j "p"))
+  | "g" => pure (.grant (← intF j "g"))
+  | "panic" => pure .panic
+  | k => .error s!"bad out {k}"
+
+def verdictStr : Verdict → String
+  | .ok => "ok" | .panicked => "panic" | .countWrong => "count" | .overGrant => "overgrant"
+  | .underGrant => "undergrant" | .shape => "shape"
+
+/-- model ≡ implementation on arbitrary (also ill-formed) op sequences -/
+def poolstate (inp _impl : Json) : Except String Resp := do
+  let ops ← (← arrF inp "ops").mapM parseOp
+  let outs := observations .asIs State.init ops
+  pure { model := some (jObj [("out", jArr (outs.map outToJson))]) }
+
+/-- walk the ledger along the implementation's outputs: the first event that is not a protocol event
+    (generator error) or the first unacceptable observation -/
+def walk (L : Ledger) (i : Nat) : List Op → List Out → Except String (Option (Nat × Verdict))
+  | [], [] => pure none
+  | op :: ops, out :: outs =>
+    if !wf L op then .error s!"event {i} is not a protocol event for the ledger (generator error)"
+    else if judge L op out != .ok then pure (some (i, judge L op out))
+    else walk (advance L op out) (i + 1) ops outs
+  | _, _ => .error "ops/outputs length mismatch"
+
+/-- the ledger specification evaluated on what the real `NodePoolState` answered -/
+def poolspec (inp impl : Json) : Except String Resp := do
+  let ops ← (← arrF inp "ops").mapM parseOp
+  let model := observations .asIs State.init ops
+  let mj := jObj [("out", jArr (model.map outToJson))]
+  match fldOpt impl "out" with
+  | none => pure { model := some mj, spec := some false, why := "implementation produced no output list" }
+  | some o =>
+    let outs ← listOf parseOut o
+    match ← walk Ledger.init 0 ops outs with
+    | none => pure { model := some mj, spec := some true }
+    | some (i, v) =>
+      pure { model := some mj, spec := some false,
+             why := s!"event {i}: {verdictStr v} (ledger: the pool's NodeClaims / outstanding grants do not allow this answer)" }
+
+end PoolState
+
+/-! ## NodePool limits over multi-round histories of the real provisioner -/
+section LimitsPass
+open Karp.Limits
+
+/-- the `nodes` resource name, from the source -/
+def nodesName : String := Karp.Gen.C03Limits.nodeResourceName
+
+/-- a JSON object `{name: milli}` as a resource list (sorted by name); `null` = empty -/
+def parseRes (j : Json) : Except String (Res String) :=
+  match j with
+  | .null => pure []
+  | .obj kvs => kvs.toList.mapM (fun (k, v) => do pure (k, ← asInt v))
+  | _ => .error "resource list expected"
+
+def resEqual (a b : Res String) : Bool :=
+  (a.all fun (k, q) => b.get k == q) && (b.all fun (k, q) => a.get k == q)
+
+def addRes (a b : Res String) : Res String :=
+  let keys := (a.map (·.1) ++ b.map (·.1)).eraseDups
+  keys.map fun k => (k, a.get k + b.get k)
+
+structure PoolRec where
+  existing : List Nat
+  unlaunched : List (List Nat)
+  new : List (List Nat)
+  after : List Nat
+
+def parsePoolRec (j : Json) : Except String PoolRec := do
+  pure { existing := ← natList (← fld j "existing"),
+         unlaunched := ← listOf natList (← fld j "unlaunched"),
+         new := ← listOf natList (← fld j "new"),
+         after := ← natList (← fld j "after") }
+
+/-- exact mode (tiny anti-affine pods): the options of every opened NodeClaim are exactly what the guard lets through,
+    and the remaining resources evolve by `subtractMax` -/
+def passExact (poolITs : List (IT String)) (remaining : Res String) : List (List Nat) → Bool
+  | [] => true
+  | opts :: rest =>
+    match openOptions nodesName poolITs remaining with
+    | none => false
+    | some f =>
+      let want := (f.map (·.name)).toArray.qsort (· < ·) |>.toList
+      let got := opts.toArray.qsort (· < ·) |>.toList
+      want == got && passExact poolITs (subtractMax .asIs nodesName remaining f) rest
+
+def limitspass (inp impl : Json) : Except String Resp := do
+  let catalog ← (← arrF inp "catalog").mapM (fun j => do parseRes (← fld j "cap"))
+  let pools ← (← arrF inp "pools").mapM (fun j => do parseRes ((fldOpt j "limits").getD Json.null))
+  let poolITs ← (← arrF inp "pools").mapM (fun j => do natList (← fld j "its"))
+  let hasLimits ← (← arrF inp "pools").mapM (fun j => pure (fldOpt j "limits").isSome)
+  let exact ← boolD inp "exact" false
+  let capOf (i : Nat) : Res String := catalog.getD i []
+  let itOf (i : Nat) : IT String := { name := i, cap := capOf i }
+  let rounds ← match fldOpt impl "rounds" with
+    | some r => asArr r
+    | none => .error "implementation produced no rounds (harness error or panic)"
+  let mut spec := true
+  let mut allowed := true
+  let mut why := ""
+  let mut whyS := ""
+  let mut ri := 0
+  for r in rounds do
+    let synced ← boolF r "synced"
+    let ran ← boolF r "ran"
+    let recs ← (← arrF r "pools").mapM parsePoolRec
+    let usage ← (← arrF r "usage").mapM parseRes
+    -- model of the gate: Synced() is false exactly while some NodeClaim is unlaunched; the pass runs iff synced
+    let anyUnlaunched := recs.any (fun p => !p.unlaunched.isEmpty)
+    if allowed && synced == anyUnlaunched then
+      allowed := false; why := s!"round {ri}: Synced() = {synced} although unlaunched NodeClaims exist = {anyUnlaunched}"
+    if allowed && ran != synced then
+      allowed := false; why := s!"round {ri}: pass ran = {ran} with synced = {synced}"
+    let mut pi := 0
+    for p in recs do
+      let limits := pools.getD pi []
+      let existingCaps := p.existing.map capOf
+      -- the property, on what the real code did
+      if spec && !Karp.Spec.Limits.roundOk nodesName limits existingCaps
+            (p.unlaunched.map (·.map capOf)) (p.new.map (·.map capOf)) then
+        spec := false
+        let bad := Karp.Spec.Limits.exceeded nodesName limits existingCaps ((p.unlaunched ++ p.new).map (·.map capOf))
+        whyS := s!"round {ri}, pool {pi}: after the pass the pool can exceed its limit on {bad} " ++
+               s!"(existing nodes + largest permitted launch of every unlaunched NodeClaim)"
+      -- the model's transition system admits the pass
+      if allowed && ran then
+        let remaining := remainingAtStart limits (existingCaps.map (nodeCapacity nodesName))
+        if !passOk .asIs nodesName remaining (p.new.map (·.map itOf)) then
+          allowed := false
+          why := s!"round {ri}, pool {pi}: the NodeClaims opened are not admitted by the model (guard / filterByRemainingResources / subtractMax)"
+        else if exact && hasLimits.getD pi false && !passExact ((poolITs.getD pi []).map itOf) remaining p.new then
+          allowed := false
+          why := s!"round {ri}, pool {pi}: exact mode: the options of the opened NodeClaims are not exactly filterByRemainingResources(pool types, remaining) with remaining evolving by subtractMax"
+      if allowed && !ran && !p.new.isEmpty then
+        allowed := false; why := s!"round {ri}: NodeClaims created although the pass did not run"
+      -- Cluster.nodePoolResources = sum of StateNode.Capacity() over the nodes not being deleted
+      let expect := (p.after.map (fun i => nodeCapacity nodesName (capOf i))).foldl addRes []
+      let got := (usage.getD pi []).filter (fun (_, q) => q != 0)
+      if allowed && !resEqual (expect.filter (fun (_, q) => q != 0)) got then
+        allowed := false
+        why := s!"round {ri}, pool {pi}: NodePoolResourcesFor differs from the sum of the capacities of the nodes that are not being deleted"
+      pi := pi + 1
+    ri := ri + 1
+  pure { allowed := some allowed, spec := some spec, why := if !spec then whyS else why }
+
+/-- `Provisioner.Create` in front of the limits -/
+def createOp (inp impl : Json) : Except String Resp := do
+  let catalog ← (← arrF inp "catalog").mapM (fun j => do parseRes (← fld j "cap"))
+  let limits ← parseRes ((fldOpt inp "limits").getD Json.null)
+  let existing ← natList (← fld inp "existing")
+  let marked ← natList (← fld inp "marked")
+  let capOf (i : Nat) : Res String := catalog.getD i []
+  let counted := (existing.zipIdx.filter (fun (_, i) => !marked.contains i)).map (·.1)
+  -- model: Cluster.nodePoolResources, then Limits.ExceededBy
+  let usage := ((counted.map (fun i => nodeCapacity nodesName (capOf i))).foldl addRes []).filter (fun (_, q) => q != 0)
+  let refused := exceededBy limits usage
+  let model := jObj [("created", jBool (!refused)), ("err", jStr (if refused then "limit" else "")),
+                     ("inApi", jNat (if refused then 0 else 1)),
+                     ("usage", Json.mkObj (usage.map fun (k, q) => (k, jInt q)))]
+  -- specification: a NodeClaim is created exactly when no limited resource is already used above its limit,
+  -- the usage being the capacity (and one node each) of the nodes that are not being deleted
+  let over := Karp.Spec.Limits.exceeded nodesName limits (counted.map capOf) []
+  let created ← boolF impl "created"
+  let inApi ← natF impl "inApi"
+  let specOk := (created == over.isEmpty) && (inApi == (if created then 1 else 0))
+  pure { model := some model, spec := some specOk,
+         why := if specOk then "" else s!"created = {created} (NodeClaims added to the API: {inApi}) although the pool's usage exceeds its limit on {over}" }
+
+end LimitsPass
+
+/-! ## whole reconciles of the static-pool controllers -/
+section Static
+open Karp.PoolState Karp.StaticPool
+
+def parseStep (j : Json) : Except String Karp.Spec.Static.Step := do
+  let n ← intD j "n"
+  match (← strF j "s") with
+  | "prov" => pure .prov
+  | "deprov" => pure .deprov
+  | "launch" => pure .launch
+  | "reap" => pure .reap
+  | "sync" => pure .sync
+  | "scale" => pure (.scale n)
+  | "limit" => pure (.limit (some n))
+  | "nolimit" => pure (.limit none)
+  | "reserve" => pure (.reserve n)
+  | "release" => pure (.release n)
+  | "pend" => pure (.pend n.toNat)
+  | "restart" => pure .restart
+  | s => .error s!"bad step {s}"
+
+def parseObs (j : Json) : Except String (Karp.Spec.Static.Obs × List Nat) := do
+  pure ({ total := ← natF j "total", deleting := ← natF j "deleting", a := ← natF j "a", d := ← natF j "d",
+          p := ← natF j "p", err := ← strF j "err", grant := ← intF j "grant", faults := ← boolF j "faults",
+          gateOpen := ← boolF j "gateOpen" }, ← natList (← fld j "deleted"))
+
+/-- one step of the model, given the implementation's choice of deprovisioning candidates;
+    returns the new world, the error class and the grant the model expects -/
+def modelStep (w : World) (s : Karp.Spec.Static.Step) (deleted : List Nat) : Except String (World × String × Int) :=
+  match s with
+  | .prov => let r := provision w; pure (r.1, r.2, 0)
+  | .deprov =>
+    match deprovision w deleted with
+    | some w' => pure (w', "", 0)
+    | none => .error "the NodeClaims deleted by the deprovisioning reconcile are not an allowed choice (count / unlaunched first / not known as deleting)"
+  | .launch => pure (launchAll w, "", 0)
+  | .reap => pure (reap w, "", 0)
+  | .sync => pure (sync w, "", 0)
+  | .scale n => pure ({ w with replicas := n }, "", 0)
+  | .limit l => pure ({ w with limit := l }, "", 0)
+  | .reserve k => let r := reserve w.st np (nodeLimit w.limit) k; pure ({ w with st := r.1 }, "", r.2)
+  | .release k =>
+    match release .asIs w.st np k with
+    | some st => pure ({ w with st := st }, "", 0)
+    | none => pure ({ w with lossy := true }, "panic", 0)
+  | .pend i => pure (pend w i, "", 0)
+  | .restart => pure (restart w, "", 0)
+
+def staticOp (inp impl : Json) : Except String Resp := do
+  let replicas ← intF inp "replicas"
+  let limit ← intO inp "limit"
+  let fail ← natList ((fldOpt inp "fail").getD (Json.arr #[]))
+  let steps ← (← arrF inp "steps").mapM parseStep
+  let obs ← match fldOpt impl "obs" with
+    | some o => (← asArr o).mapM parseObs
+    | none => .error "implementation produced no observations (harness error)"
+  let reservedImpl ← intF impl "reserved"
+  if obs.length != steps.length then throw "steps/observations length mismatch"
+  let mut w := World.init replicas limit fail
+  let mut t : Karp.Spec.Static.Tracker := { replicas := replicas, limit := limit }
+  let mut allowed := true
+  let mut whyA := ""
+  let mut spec := true
+  let mut whyS := ""
+  let mut i := 0
+  for (s, (o, deleted)) in steps.zip obs do
+    if allowed then
+      match modelStep w s deleted with
+      | .error e => allowed := false; whyA := s!"step {i}: {e}"
+      | .ok (w', err, grant) =>
+        w := w'
+        let c := counts w.st np
+        let exp := (live w + deleting w, deleting w, c.1, c.2.1, c.2.2, err, grant)
+        let got := (o.total, o.deleting, o.a, o.d, o.p, o.err, o.grant)
+        if exp != got then
+          allowed := false
+          whyA := s!"step {i}: model expects (total, deleting, active, deleting, pending, err, grant) = {repr exp}, implementation {repr got}"
+    -- the property is judged on the prefix in which the code as it is did not lose bookkeeping (see poolgc)
+    if spec && !w.lossy then
+      match Karp.Spec.Static.check t s o with
+      | some why => spec := false; whyS := s!"step {i}: {why}"
+      | none => pure ()
+    t := Karp.Spec.Static.advance t s o
+    i := i + 1
+  if allowed && reservedOf w.st np != reservedImpl then
+    allowed := false; whyA := s!"end: model expects reserved = {reservedOf w.st np}, implementation {reservedImpl}"
+  if spec && !w.lossy && reservedImpl != t.outstanding then
+    spec := false
+    whyS := s!"end: reserved counter is {reservedImpl} but other reconciles hold {t.outstanding} slots (a reconcile leaked or lost slots)"
+  pure { allowed := some allowed, spec := some spec,
+         why := if !spec then whyS else whyA,
+         extra := if !spec && !allowed then some (jObj [("model", jStr whyA)]) else none }
+
+/-- one static-drift round -/
+def driftOp (inp impl : Json) : Except String Resp := do
+  let replicasSpec ← natF inp "replicas"
+  let extra ← natD inp "extra"
+  let replicas := replicasSpec + extra     -- number of nodes the harness builds
+  let limit ← intO inp "limit"
+  let budget ← natF inp "budget"
+  let drifted ← natF inp "drifted"
+  let held ← intF inp "held"
+  let lost ← natList (← fld inp "lost")
+  let createFail ← natList (← fld inp "createFail")
+  -- the pool as the harness builds it: `replicas` launched claims (ids 2..), the first `drifted` are candidates
+  let ids := (List.range replicas).map (· + 2)
+  let s0 := ids.foldl (fun s i => update s np i false) State.init
+  let s1 := if held > 0 then (reserve s0 np (nodeLimit limit) held).1 else s0
+  let heldGranted := reservedOf s1 np
+  let r := driftRound s1 (replicasSpec : Int) limit budget (ids.take drifted) lost createFail (replicas + 2)
+  let c := counts r.st np
+  let model := jObj [("commands", jNat r.commands), ("started", jNat r.started), ("failed", jNat r.failed),
+    ("a", jNat c.1), ("d", jNat c.2.1), ("p", jNat c.2.2), ("total", jNat (replicas + r.created)),
+    ("reserved", jInt (reservedOf r.st np - heldGranted)), ("panic", jBool r.panicked)]
+  -- specification: the round is over, so every slot it reserved is given back; nothing crashed; what it created
+  -- stays within limits.nodes together with the slots others hold
+  let reservedI ← intF impl "reserved"
+  let totalI ← natF impl "total"
+  let panicI ← boolF impl "panic"
+  let within := match limit with
+    | none => true
+    | some l => totalI ≤ replicas || decide ((totalI : Int) + heldGranted ≤ l)
+  let (ok, why) :=
+    if panicI then (false, "the drift round panicked")
+    else if reservedI != 0 then (false, s!"after the round {reservedI} reserved slot(s) were never given back")
+    else if !within then (false, "replacement NodeClaims were created beyond limits.nodes")
+    else (true, "")
+  pure { model := some model, spec := some ok, why := why }
+
+end Static
+
+def handle : Handler := fun op inp impl =>
+  match op with
+  | "c03.poolstate" => poolstate inp impl
+  | "c03.poolspec" => poolspec inp impl
+  | "c03.poolgc" => poolspec inp impl
+  | "c03.limitspass" => limitspass inp impl
+  | "c03.limitsnodes" => limitspass inp impl
+  | "c03.static" => staticOp inp impl
+  | "c03.create" => createOp inp impl
+  | "c03.drift" => driftOp inp impl
+  | _ => .error s!"unknown op {op}"
 
 end Karp.Driver.C03
